@@ -167,8 +167,10 @@ def lenNewline (b : Bytes) : Nat :=
   | 10 :: _ => 1
   | _ => 0
 
+/-- `writeCSV` into a buffer, final newline stripped; a record of exactly one empty field is written as `""`
+(repair "CSV output writes a record of one empty field as \"\" so it is read back as a record") -/
 def csvJoin (sep : UInt8) (fields : List Bytes) : Bytes :=
-  let out := intercalate [sep] (fields.map (csvField sep)) ++ [10]
+  let out := (if fields = [[]] then [34, 34] else intercalate [sep] (fields.map (csvField sep))) ++ [10]
   out.take (out.length - lenNewline out)
 
 /-! ## State -/
